@@ -53,6 +53,10 @@ func (f *Unless) Call(s *slip.Scope, args slip.List, depth int) (result slip.Obj
 	if slip.EvalArg(s, args, pos, d2) == nil {
 		for pos++; pos < len(args); pos++ {
 			result = slip.EvalArg(s, args, pos, d2)
+			switch result.(type) {
+			case *slip.ReturnResult, *GoTo:
+				return result
+			}
 		}
 	}
 	return
